@@ -15,17 +15,19 @@ The parsers quantified over are those whose links were all registered by accepte
 (`Accepted`).  `Unchained` is what `_initial_input_checks` compares: whole keys.
 
 FULL STATEMENT (what the property asks): for every accepted link set and every successful parse,
-`cfg[target] = F(cfg[sources])` for every link.  It is FALSE for the code and the faithful model in two ways, both
-proved below on concrete parsers and both open known findings:
- * `C15-self-link`: the checks compare the new target with the sources of *previous* links only, so a link whose
-   target is one of its own sources is accepted (`C15_self_link_counterexample`);
+`cfg[target] = F(cfg[sources])` for every link.  It is FALSE for the code and the faithful model in one way, proved
+below on a concrete parser (open known finding):
  * `C15-nested-chain`: keys are compared as whole strings, so `g` (a group) as source of one link and `g.p` as
    target of another one are accepted, and the group is read before its member is written
    (`C15_nested_chain_counterexample`).
-What is proved is the full statement under exactly these two guards, as decidable predicates on the link set:
-`noSelf` and `nonNested`.  `C15_not_in_dump` is proved for the key path of every target; for the *items* of a list
-of classes it is false (`C15_list_item_target_in_dump`, DESIGN §7 row 15c, open finding) and proved under the
-guard that the dest of the target does not hold a list.
+What is proved is the full statement under exactly this guard, a decidable predicate on the link set: `nonNested`.
+A second way was repaired in /repo (ba94f2f, fixed finding F15x): `_initial_input_checks` compared the new target
+with the sources of *previous* links only, so a link whose target is one of its own sources was accepted; the model's
+`addLink` now has the check, `C15_no_chains` includes it, and `C15_self_link_counterexample` keeps the pre-fix
+parser state as a regression example.
+`C15_not_in_dump` is proved for the key path of every target; for the *items* of a list of classes it is false
+(`C15_list_item_target_in_dump`, DESIGN §7 row 15c, open finding) and proved under the guard that the dest of the
+target does not hold a list.
 -/
 namespace Jap.Props.C15
 open Jap.NS Jap.Links
@@ -42,18 +44,19 @@ theorem Accepted.inv {p0 : Parser} {reqs : List LinkReq} {p : Parser} (h : Accep
 
 /-! ## accepted link sets -/
 
-/-- no double targets, and no target of a link is a source of another link (no chains) -/
+/-- no double targets, no target of a link is a source of another link, nor of its own link (no chains) -/
 theorem C15_no_chains (p0 p : Parser) (reqs : List LinkReq) (h : Accepted p0 reqs p) :
     p.links.Pairwise (fun l l' => l.target ≠ l'.target ∧ l.target ∉ l'.sources.map (·.key) ∧
-      l'.target ∉ l.sources.map (·.key)) :=
-  h.inv.noChain
+      l'.target ∉ l.sources.map (·.key)) ∧
+    ∀ l ∈ p.links, l.target ∉ l.sources.map (·.key) :=
+  ⟨h.inv.noChain, h.inv.noSelf⟩
 
-/-- … hence, away from the two finding classes, every target diverges from every source and every other target -/
+/-- … hence, away from the nested-key finding class, every target diverges from every source and every other target -/
 theorem C15_independent (p0 p : Parser) (reqs : List LinkReq) (h : Accepted p0 reqs p)
-    (hs : noSelf p.links = true) (hn : nonNested p.links = true) :
+    (hn : nonNested p.links = true) :
     (∀ l ∈ p.links, ∀ l' ∈ p.links, ∀ s ∈ l'.sources, diverges l.target s.key = true) ∧
     p.links.Pairwise (fun l l' => diverges l.target l'.target = true) :=
-  indep_of_unchained p.links h.inv.noChain hs hn
+  indep_of_unchained p.links h.inv.noChain h.inv.noSelf hn
 
 /-! ## the invariant -/
 
@@ -62,12 +65,12 @@ theorem C15_independent (p0 p : Parser) (reqs : List LinkReq) (h : Accepted p0 r
     of a list of classes) holds its result; a plain target is always set.  `inputs` is arbitrary: any channel may
     have set the sources, anything may have been supplied for the target. -/
 theorem C15_invariant (E : Env) (p0 p : Parser) (reqs : List LinkReq) (h : Accepted p0 reqs p)
-    (hs : noSelf p.links = true) (hn : nonNested p.links = true)
+    (hn : nonNested p.links = true)
     (inputs : List Input) (cfg : KV) (hp : parse E p inputs = .ok cfg) :
     ∀ l ∈ p.links, ∀ args, argsOf cfg l.sources = some args →
       ∃ v, linkValue E l args = .ok v ∧ (∀ w ∈ targetValues l cfg, w = v) ∧
         (l.kind = .plain → getK l.target cfg = some v) := by
-  obtain ⟨hST, hTT⟩ := indep_of_unchained p.links h.inv.noChain hs hn
+  obtain ⟨hST, hTT⟩ := indep_of_unchained p.links h.inv.noChain h.inv.noSelf hn
   obtain ⟨c0, _, hc⟩ := parse_ok E p inputs cfg hp
   obtain ⟨ha, _, _⟩ := parseCommon_ok E p c0 cfg hc
   intro l hl args hargs
@@ -82,10 +85,10 @@ theorem C15_invariant (E : Env) (p0 p : Parser) (reqs : List LinkReq) (h : Accep
 /-- the hypothesis "the sources are present" of `C15_invariant` is automatic for sources that are not below a
     subclass-typed argument (for those the code skips the link while the source is absent) -/
 theorem C15_sources_present (E : Env) (p0 p : Parser) (reqs : List LinkReq) (h : Accepted p0 reqs p)
-    (hs : noSelf p.links = true) (hn : nonNested p.links = true)
+    (hn : nonNested p.links = true)
     (inputs : List Input) (cfg : KV) (hp : parse E p inputs = .ok cfg) :
     ∀ l ∈ p.links, (∀ s ∈ l.sources, s.sub = false) → ∃ args, argsOf cfg l.sources = some args := by
-  obtain ⟨hST, hTT⟩ := indep_of_unchained p.links h.inv.noChain hs hn
+  obtain ⟨hST, hTT⟩ := indep_of_unchained p.links h.inv.noChain h.inv.noSelf hn
   obtain ⟨c0, _, hc⟩ := parse_ok E p inputs cfg hp
   obtain ⟨ha, _, _⟩ := parseCommon_ok E p c0 cfg hc
   intro l hl hsub
@@ -98,7 +101,7 @@ theorem C15_sources_present (E : Env) (p0 p : Parser) (reqs : List LinkReq) (h :
     value at every place of every target (each link's value is determined by the sources as they stood before the
     pass, which no link writes). -/
 theorem C15_one_pass_suffices (E : Env) (p0 p : Parser) (reqs : List LinkReq) (h : Accepted p0 reqs p)
-    (hs : noSelf p.links = true) (hn : nonNested p.links = true) (c0 cfg : KV)
+    (hn : nonNested p.links = true) (c0 cfg : KV)
     (ha : applyParsingLinks E p.links c0 = .ok cfg) :
     applyParsingLinks E p.links cfg = .ok cfg ∧
     ∀ ls', ls'.Perm p.links → ∃ c2, applyParsingLinks E ls' c0 = .ok c2 ∧
@@ -106,7 +109,7 @@ theorem C15_one_pass_suffices (E : Env) (p0 p : Parser) (reqs : List LinkReq) (h
       (∀ l ∈ p.links, ∀ args, argsOf c0 l.sources = some args → ∃ v, linkValue E l args = .ok v ∧
         (∀ w ∈ targetValues l cfg, w = v) ∧ (∀ w ∈ targetValues l c2, w = v) ∧
         (l.kind = .plain → getK l.target c2 = getK l.target cfg)) := by
-  obtain ⟨hST, hTT⟩ := indep_of_unchained p.links h.inv.noChain hs hn
+  obtain ⟨hST, hTT⟩ := indep_of_unchained p.links h.inv.noChain h.inv.noSelf hn
   refine ⟨applyAll_of_each E cfg p.links (apply_fixed E p.links c0 cfg ha hST hTT h.inv.wf), ?_⟩
   intro ls' hperm
   obtain ⟨c2, h2, hf, hv⟩ := apply_perm E p.links ls' c0 cfg hperm ha hST hTT
@@ -152,7 +155,7 @@ theorem C15_not_in_dump_partial (p0 p : Parser) (reqs : List LinkReq) (h : Accep
     leaves those keys as they are and rebuilds every target: every place that holds a target holds the value it
     held in `cfg`, and plain targets are restored exactly. -/
 theorem C15_reparse_reconstructs (E : Env) (p0 p : Parser) (reqs : List LinkReq) (h : Accepted p0 reqs p)
-    (hs : noSelf p.links = true) (hn : nonNested p.links = true)
+    (hn : nonNested p.links = true)
     (inputs : List Input) (cfg : KV) (hp : parse E p inputs = .ok cfg) (load : KV → KV)
     (hload : ∀ k, (∀ l ∈ p.links, diverges l.target k = true) → getK k (load (dump p cfg)) = getK k cfg) :
     ∃ cfg2, applyParsingLinks E p.links (load (dump p cfg)) = .ok cfg2 ∧
@@ -162,7 +165,7 @@ theorem C15_reparse_reconstructs (E : Env) (p0 p : Parser) (reqs : List LinkReq)
         (l.kind = .plain → getK l.target cfg2 = getK l.target cfg)) ∧
       ((∀ c, E.valid c = true) → (∀ k ∈ p.required, ∀ l ∈ p.links, diverges l.target k = true) →
         reparse E p load (dump p cfg) = .ok cfg2) := by
-  obtain ⟨hST, hTT⟩ := indep_of_unchained p.links h.inv.noChain hs hn
+  obtain ⟨hST, hTT⟩ := indep_of_unchained p.links h.inv.noChain h.inv.noSelf hn
   obtain ⟨c0, _, hc⟩ := parse_ok E p inputs cfg hp
   obtain ⟨ha, _, hreq⟩ := parseCommon_ok E p c0 cfg hc
   obtain ⟨cfg2, h2, hf, hv⟩ := reparse_links E p.links c0 cfg (load (dump p cfg)) ha hST hTT hload
@@ -187,16 +190,16 @@ theorem C15_dump_keeps_the_rest (p0 p : Parser) (reqs : List LinkReq) (h : Accep
 /-- … so that, in the model, the stripped configuration itself (`load` = identity: no class defaults to restore)
     re-parses: the pass succeeds and every plain target gets back exactly the value it had -/
 theorem C15_reparse_plain (E : Env) (p0 p : Parser) (reqs : List LinkReq) (h : Accepted p0 reqs p)
-    (hs : noSelf p.links = true) (hn : nonNested p.links = true)
+    (hn : nonNested p.links = true)
     (inputs : List Input) (cfg : KV) (hp : parse E p inputs = .ok cfg) :
     ∃ cfg2, applyParsingLinks E p.links (dump p cfg) = .ok cfg2 ∧
       (∀ k, (∀ l ∈ p.links, diverges l.target k = true) → getK k cfg2 = getK k cfg) ∧
       (∀ l ∈ p.links, l.kind = .plain → (∀ s ∈ l.sources, s.sub = false) →
         getK l.target cfg2 = getK l.target cfg) := by
-  obtain ⟨cfg2, h2, hf, hv, _⟩ := C15_reparse_reconstructs E p0 p reqs h hs hn inputs cfg hp id
+  obtain ⟨cfg2, h2, hf, hv, _⟩ := C15_reparse_reconstructs E p0 p reqs h hn inputs cfg hp id
     (fun k hk => getK_strip_frame p h.inv cfg k hk)
   refine ⟨cfg2, h2, hf, fun l hl hk hsub => ?_⟩
-  obtain ⟨args, hargs⟩ := C15_sources_present E p0 p reqs h hs hn inputs cfg hp l hl hsub
+  obtain ⟨args, hargs⟩ := C15_sources_present E p0 p reqs h hn inputs cfg hp l hl hsub
   obtain ⟨_, _, _, _, hpl⟩ := hv l hl args hargs
   exact hpl hk
 
@@ -222,17 +225,22 @@ def parserOf (p0 : Parser) (reqs : List LinkReq) : Parser :=
   | .ok p => p
   | .error _ => p0
 
-/-! ### C15-self-link -/
+/-! ### the self link (fixed finding F15x, ba94f2f): regression example of the pre-fix check -/
 
 def p0Self : Parser := { actions := [arg (key "a"), arg (key "b")], required := [], links := [] }
 def reqsSelf : List LinkReq := [⟨[key "a", key "b"], [], key "a", some 0⟩]
 
-/-- `link_arguments(("a", "b"), "a", add)` is accepted, the full no-chain statement (no target is a source of ANY
-    link) fails, and with `a: 10` from a config and `b = 2` the parse returns `a = 12` although `add(12, 2) = 14` -/
+/-- the parser state `link_arguments(("a", "b"), "a", add)` produced while the check was missing -/
+def pSelfPreFix : Parser :=
+  { actions := [⟨key "a", .link⟩, arg (key "b")], required := [],
+    links := [⟨[⟨key "a", false, false⟩, ⟨key "b", false, false⟩], key "a", some 0, .plain⟩] }
+
+/-- `link_arguments(("a", "b"), "a", add)` is refused now; on the parser the pre-fix check let through, `a: 10` from
+    a config and `b = 2` parse to `a = 12` although `add(12, 2) = 14` -/
 theorem C15_self_link_counterexample :
-    addLinks p0Self reqsSelf = .ok (parserOf p0Self reqsSelf) ∧
-    noSelf (parserOf p0Self reqsSelf).links = false ∧
-    parse Ew (parserOf p0Self reqsSelf) [⟨.dflt, key "b", .atom 2⟩, ⟨.config, key "a", .atom 10⟩]
+    addLinks p0Self reqsSelf = .error .selfLink ∧
+    noSelf pSelfPreFix.links = false ∧
+    parse Ew pSelfPreFix [⟨.dflt, key "b", .atom 2⟩, ⟨.config, key "a", .atom 10⟩]
       = .ok [(⟨false, "b"⟩, .atom 2), (⟨false, "a"⟩, .atom 12)] ∧
     Fw 0 [.atom 12, .atom 2] = some (.atom 14) := by
   refine ⟨rfl, by decide, rfl, rfl⟩
@@ -294,9 +302,9 @@ def reqsOk : List LinkReq :=
 
 /-- the hypotheses of the theorems hold for a parser with a required plain target, a group-valued source with the
     dict coercion, an `init_args` target and a list-of-classes target -/
-example : Accepted p0Ok reqsOk (parserOf p0Ok reqsOk) ∧ noSelf (parserOf p0Ok reqsOk).links = true ∧
+example : Accepted p0Ok reqsOk (parserOf p0Ok reqsOk) ∧
     nonNested (parserOf p0Ok reqsOk).links = true ∧ (parserOf p0Ok reqsOk).required = [] :=
-  ⟨⟨rfl, by decide, by decide, rfl⟩, by decide, by decide, rfl⟩
+  ⟨⟨rfl, by decide, by decide, rfl⟩, by decide, rfl⟩
 
 /-- … and a parse succeeds: `c` given by a config is overridden, `m` receives the group as a dict -/
 example : parse Ew (parserOf p0Ok reqsOk)
@@ -310,9 +318,10 @@ example : addLinks p0Ok (reqsOk ++ [⟨[key "c"], [], key "b", .none⟩]) = .err
     addLinks p0Ok (reqsOk ++ [⟨[key "b"], [], key "c", .none⟩]) = .error .doubleTarget ∧
     addLinks p0Ok (reqsOk ++ [⟨[(key2 "g" "p")], [], key "a", .none⟩]) = .error .targetIsSource ∧
     addLinks p0Ok [⟨[key "a", key "b"], [], key "c", .none⟩] = .error .multiNoFn ∧
+    addLinks p0Ok [⟨[key "a", key "b"], [], key "b", some 0⟩] = .error .selfLink ∧
     addLinks p0Ok [⟨[key "nokey"], [], key "c", .none⟩] = .error .noAction ∧
     addLinks p0Ok [⟨[key "a"], [], (key2 "opt" "dim"), .none⟩] = .error .badSubclassTarget :=
-  ⟨rfl, rfl, rfl, rfl, rfl, rfl⟩
+  ⟨rfl, rfl, rfl, rfl, rfl, rfl, rfl⟩
 
 /-! ## the code runs the steps in the order the model assumes (regenerated from `_core.py`, `_link_arguments.py`) -/
 
@@ -334,10 +343,12 @@ theorem C15_code_dump_strips :
   decide
 
 open Jap.Gen.LinksOrder in
-/-- `_initial_input_checks` still raises for the three chain shapes and for several sources without function -/
+/-- `_initial_input_checks` still raises for the four chain shapes (own sources included) and for several sources
+    without function -/
 theorem C15_code_initial_checks :
     ["Multiple source keys requires a compute function.", "Target \"\" is already a target of another link.",
      "Source \"\" not allowed since it is the target of another link.",
+     "Target \"\" not allowed since it is one of the sources of the link.",
      "Target \"\" not allowed since it is the source of another link."].all (initialChecks.contains ·) = true := by
   decide
 
